@@ -191,8 +191,8 @@ func TestC14ExhaustiveShort(t *testing.T) {
 	var seq []wop
 	var rec func(depth int)
 	maxLen := 5
-	if stats.Thorough() {
-		maxLen = 6
+	if stats.Thorough() && stats.EnvInt("VERIF_SHARD", 0) == 0 {
+		maxLen = 6 // the enumeration is the same in every shard: the long one runs in the first only
 	}
 	fail := false
 	rec = func(depth int) {
